@@ -81,15 +81,21 @@ def natBEAux : Nat → Nat → Bytes
 
 def natBE (n : Nat) : Bytes := natBEAux n n
 
+/-- `k` little-endian bytes of `n` (value taken modulo 256^k). -/
+def leBytes : Nat → Nat → Bytes
+  | 0, _ => []
+  | k + 1, n => UInt8.ofNat (n % 256) :: leBytes k (n / 256)
+
 /-- `binary.LittleEndian.PutUint64` (value taken modulo 2^64). -/
-def le64 (n : Nat) : Bytes := (List.range 8).map fun i => UInt8.ofNat (n / 256 ^ i % 256)
+def le64 (n : Nat) : Bytes := leBytes 8 n
 
 /-- little-endian value of a byte string (`binary.LittleEndian.Uint64` on 8 bytes, `Uint16` on 2). -/
 def leNat : Bytes → Nat
   | [] => 0
   | x :: r => x.toNat + 256 * leNat r
 
-def le16 (n : Nat) : Bytes := [UInt8.ofNat (n % 256), UInt8.ofNat (n / 256 % 256)]
+/-- `binary.Write(…, LittleEndian, uint16(n))`. -/
+def le16 (n : Nat) : Bytes := leBytes 2 n
 
 /-- `bytes.Compare(a, b) ≤ 0` (lexicographic). -/
 def bytesLe : Bytes → Bytes → Bool
